@@ -575,6 +575,22 @@ pub fn run(out: &mut Out, tier: &str, seed: u64, prop: &str) {
             }
         }
     }
+    // ---- C07: every ASCII letter and digit in every position of a name and of an extra (the scanners have their own character
+    //      classes, apart from the name constructors') ---------------------------------------------------
+    if prop == "C07" {
+        for c in ('a'..='z').chain('A'..='Z').chain('0'..='9') {
+            for (text, name, extras) in [(format!("pkg[{c}x]"), "pkg".to_string(), vec![format!("{c}x")]), (format!("pkg[x{c}]"), "pkg".into(), vec![format!("x{c}")]), (format!("pkg [ {c} , x-{c}.y ] >= 1"), "pkg".into(), vec![c.to_string(), format!("x-{c}.y")]),
+                                         (format!("{c}x[a]"), format!("{c}x"), vec!["a".to_string()]), (format!("x{c} ; os_name == 'a'"), format!("x{c}"), vec![]), (format!("{c}"), c.to_string(), vec![]), (format!("x_{c}-y>=1"), format!("x_{c}-y"), vec![])] {
+                let ans = req_case(out, &mut w, &mut rc, prop, &text, &vars);
+                let ex: Vec<String> = extras.iter().map(|e| hex(&norm_name(e))).collect();
+                let want = format!("ok name={} extras={} ", hex(&norm_name(&name)), if ex.is_empty() { "-".to_string() } else { ex.join(";") });
+                if !ans.starts_with(&want) {
+                    out.oracle_fail("C07", &format!("a requirement whose name / extras use the character `{c}` is rejected or decomposed differently: {ans}"), serde_json::json!({"text": text}));
+                }
+                out.stat("c07.alphabet_sweep");
+            }
+        }
+    }
     // ---- derivations × layouts (C07, and correspondence for everyone) ------------------------------
     let n = if big { 3000 } else { 600 };
     for _ in 0..n {
